@@ -872,6 +872,7 @@ func (ts *Service) handleUpdateTask(w http.ResponseWriter, r *http.Request) {
 		return
 	}
 	updated := original
+	disassociateOriginal := false
 
 	// Set ID if changing
 	if task.ID != "" {
@@ -889,12 +890,10 @@ func (ts *Service) handleUpdateTask(w http.ResponseWriter, r *http.Request) {
 			return
 		}
 		if original.ID != updated.ID || original.TemplateID != templateID {
-			if original.TemplateID != "" {
-				if err := ts.templates.DisassociateTask(original.TemplateID, original.ID); err != nil {
-					httpd.HttpError(w, fmt.Sprintf("failed to disassociate task with template: %s", err), true, http.StatusBadRequest)
-					return
-				}
-			}
+			// The old association is removed only after the task has been rewritten (below):
+			// a task that carries a template ID must be known to that template at every
+			// point at which the process can stop.
+			disassociateOriginal = original.TemplateID != ""
 			if err := ts.templates.AssociateTask(templateID, updated.ID); err != nil {
 				httpd.HttpError(w, fmt.Sprintf("failed to associate task with template: %s", err), true, http.StatusBadRequest)
 				return
@@ -1033,6 +1032,13 @@ func (ts *Service) handleUpdateTask(w http.ResponseWriter, r *http.Request) {
 		if err := ts.tasks.Replace(updated); err != nil {
 			httpd.HttpError(w, fmt.Sprintf("failed to replace task definition: %s", err.Error()), true, http.StatusInternalServerError)
 			return
+		}
+	}
+
+	if disassociateOriginal {
+		if err := ts.templates.DisassociateTask(original.TemplateID, original.ID); err != nil {
+			ts.diag.Error("failed to disassociate task from template", err,
+				keyvalue.KV("template", original.TemplateID), keyvalue.KV("task", original.ID))
 		}
 	}
 
@@ -1423,18 +1429,23 @@ func (ts *Service) deleteTask(id string) error {
 		}
 		return err
 	}
+	vars.NumTasksVar.Add(-1)
+	if task.Status == Enabled {
+		vars.NumEnabledTasksVar.Add(-1)
+		ts.TaskMasterLookup.Main().DeleteTask(id)
+	}
+	if err := ts.tasks.Delete(id); err != nil {
+		return err
+	}
+	// Remove the association only once the task is gone: a task that carries a template ID
+	// must be known to that template at every point at which the process can stop.
 	if task.TemplateID != "" {
 		if err := ts.templates.DisassociateTask(task.TemplateID, task.ID); err != nil {
 			ts.diag.Error("failed to disassociate task from template", err,
 				keyvalue.KV("template", task.TemplateID), keyvalue.KV("task", task.ID))
 		}
 	}
-	vars.NumTasksVar.Add(-1)
-	if task.Status == Enabled {
-		vars.NumEnabledTasksVar.Add(-1)
-		ts.TaskMasterLookup.Main().DeleteTask(id)
-	}
-	return ts.tasks.Delete(id)
+	return nil
 }
 
 func (ts *Service) convertTemplate(t Template, scriptFormat string) (client.Template, error) {
